@@ -119,7 +119,7 @@ fn honest<E: Engine>(cfg: Cfg, hm: &HMember, ctx: &CtxSpec, seed: bool) -> Resul
     Ok((t, p))
 }
 
-fn garbage_bytes<E: Engine>(rounds: u8, d: u8, pts: u8, bulk: u64) -> Vec<u8> {
+pub fn garbage_bytes<E: Engine>(rounds: u8, d: u8, pts: u8, bulk: u64) -> Vec<u8> {
     let mut rng = chacha(bulk);
     let pt = |rng: &mut rand_chacha::ChaCha12Rng| -> [u8; 32] {
         match pts {
@@ -224,7 +224,38 @@ pub fn oracle<E: Engine>(_ctx: &RunCtx, spec: &HostileSpec, log: &mut CaseLog) -
             },
             _ => {},
         }
-        let st = match guarded(|| RangeStatement::init(t.params.clone(), commitments, promises, seed))
+        // a commitment-generator set assembled by hand (its fields are public) whose number of masking bases disagrees with the
+        // degree it declares: the parameter constructor is the validating step it passes through
+        let mut params = t.params.clone();
+        let gens_hack = (hm.bulk >> 8) % 9;
+        if gens_hack < 4 {
+            let mut pc = E::pedersen(ext);
+            match gens_hack {
+                0 => {
+                    pc.g_base_vec.pop();
+                    pc.g_base_compressed_vec.pop();
+                },
+                1 => {
+                    let (x, y) = (pc.g_base_vec[0].clone(), pc.g_base_compressed_vec[0]);
+                    pc.g_base_vec.push(x);
+                    pc.g_base_compressed_vec.push(y);
+                },
+                2 => {
+                    pc.g_base_vec.clear();
+                    pc.g_base_compressed_vec.clear();
+                },
+                _ => {
+                    pc.g_base_vec.pop();
+                },
+            }
+            if let Ok(p) = guarded(|| tari_bulletproofs_plus::range_parameters::RangeParameters::init(bits, cap, pc))
+                .map_err(|e| format!("{} in RangeParameters::init", e))?
+            {
+                params = p;
+                kinds.push("hand-assembled generators");
+            }
+        }
+        let st = match guarded(|| RangeStatement::init(params, commitments, promises, seed))
             .map_err(|e| format!("{} in RangeStatement::init", e))?
         {
             Ok(s) => s,
@@ -430,6 +461,99 @@ pub fn long_work_oracle(_ctx: &RunCtx, spec: &crate::props::c01::LongSpec, log: 
     Ok(())
 }
 
+// ---------------------------------------------------------------------------------------------------------------------
+// statements with MORE COMMITMENTS than the batch chunk size (cheap at one or two bits): alone and behind a small member, with
+// the honest proof, with the proof of the small member, and with garbage
+
+#[derive(Clone, Debug, Serialize, Deserialize)]
+pub struct ManySpec {
+    pub two_bits: bool,
+    /// 0 => 256, 1 => 512, 2 => 1024 commitments
+    pub m_sel: u8,
+    pub ext: usize,
+    pub slots: Vec<SlotSpec>,
+    pub ctx: CtxSpec,
+    /// 0: honest proof, 1: proof of the small member, 2: garbage with the right number of rounds, 3: garbage with 3 rounds
+    pub proof_kind: u8,
+    pub behind_small: bool,
+    pub mode: u8,
+    pub bulk: u64,
+}
+
+pub fn many_oracle<E: Engine>(_ctx: &RunCtx, spec: &ManySpec, log: &mut CaseLog) -> Result<(), String> {
+    E::reset_case();
+    let bits = if spec.two_bits { 2 } else { 1 };
+    let m = [256usize, 512, 1024][spec.m_sel as usize % 3];
+    let hm = HMember {
+        bits_idx: 0,
+        m_log: 0,
+        cap_log: 0,
+        ext: spec.ext,
+        slots: spec.slots.clone(),
+        seed: false,
+        src: Src::Own,
+        promise_hack: 0,
+        bulk: spec.bulk,
+    };
+    let (big, big_proof) = honest::<E>(Cfg { bits, m, cap: m, ext: spec.ext }, &hm, &spec.ctx, false)?;
+    let (small, small_proof) = honest::<E>(Cfg { bits, m: 1, cap: 1, ext: spec.ext }, &hm, &spec.ctx, false)?;
+    let rounds = (bits * m).trailing_zeros() as u8;
+    let proof = match spec.proof_kind % 4 {
+        0 => big_proof.clone(),
+        1 => small_proof.clone(),
+        k => {
+            let b = garbage_bytes::<E>(if k == 2 { rounds } else { 3 }, spec.ext as u8, 0, spec.bulk);
+            match guarded(|| RangeProof::<E::P>::from_bytes(&b)).map_err(|e| format!("{} in from_bytes", e))? {
+                Ok(p) => p,
+                Err(_) => big_proof.clone(),
+            }
+        },
+    };
+    let action = [VerifyAction::VerifyOnly, VerifyAction::RecoverAndVerify, VerifyAction::RecoverOnly][spec.mode as usize % 3];
+    let (mut ts, sts, proofs) = if spec.behind_small {
+        (vec![spec.ctx.transcript(), spec.ctx.transcript()], vec![small.st.clone(), big.st.clone()], vec![small_proof, proof])
+    } else {
+        (vec![spec.ctx.transcript()], vec![big.st.clone()], vec![proof])
+    };
+    let r = guarded(|| E::verify(&mut ts, &sts, &proofs, action))
+        .map_err(|e| format!("{} in verify_batch with a statement of {} commitments ({} bits, proof kind {}, behind a small member: {})", e, m, bits, spec.proof_kind % 4, spec.behind_small))?;
+    if spec.proof_kind % 4 == 0 && action != VerifyAction::RecoverOnly && r.is_err() {
+        // (completeness is C01's subject; noted, not judged)
+        log.label("many:honest-refused");
+    }
+    log.label(format!("engine={}", E::NAME));
+    log.label(format!("many:commitments={}", m));
+    log.label(format!("many:proof-kind={}", spec.proof_kind % 4));
+    log.nontrivial(&(bits, m, spec.ext, spec.proof_kind % 4, spec.behind_small, spec.mode % 3));
+    log.sample(json!({"engine": E::NAME, "kind": "statement with more commitments than the chunk size", "bits": bits, "commitments": m, "proof_kind": spec.proof_kind % 4,
+        "behind_small_member": spec.behind_small, "mode": action_name(action), "result": if r.is_ok() { "Ok" } else { "Err" }}));
+    Ok(())
+}
+
+fn many_sub<E: Engine>(cases: (usize, usize)) -> Sub {
+    sub(
+        &format!("{}/more-commitments-than-the-chunk-size", E::NAME),
+        no_fixed,
+        cases,
+        |_: &RunCtx, _: Option<&()>| {
+            (any::<bool>(), 0u8..3, 1usize..=6, prop::collection::vec(slot_strategy(), 1..=2), ctx_strategy(), 0u8..4, any::<bool>(), 0u8..3, any::<u64>()).prop_map(
+                |(two_bits, m_sel, ext, slots, ctx, proof_kind, behind_small, mode, bulk)| ManySpec {
+                    two_bits,
+                    m_sel,
+                    ext,
+                    slots,
+                    ctx,
+                    proof_kind,
+                    behind_small,
+                    mode,
+                    bulk,
+                },
+            )
+        },
+        many_oracle::<E>,
+    )
+}
+
 fn hostile_sub<E: Engine>(cases: (usize, usize)) -> Sub {
     sub(
         &format!("{}/hostile-batches", E::NAME),
@@ -475,6 +599,8 @@ pub fn def() -> PropertyDef {
             crate::props::c01::long_sub::<F>((120, 2000)),
             sub("F/long-batch-work-bound", no_fixed, (200, 3000), |_: &RunCtx, _: Option<&()>| crate::props::c01::long_strategy(), long_work_oracle),
             crate::props::c01::long_sub::<R>((16, 200)),
+            many_sub::<F>((96, 1000)),
+            many_sub::<R>((12, 100)),
             crate::fuzzdec::corpus_sub("decode"),
             crate::fuzzdec::corpus_sub("verify"),
         ],
